@@ -1453,6 +1453,41 @@ func runC06(p *an.Prog, r *an.Run, tier string) {
 	checkNonceStores(p, r)
 	// what a refused request carried does not live on in the next request's parameters
 	checkFreshParams(p, r)
+	// an authentication refusal is issued by the verify wrappers only, i.e. before the nonce is stored: an endpoint
+	// that answers VerifyFailedError on its own does so after its verify call has succeeded and consumed the nonce — the
+	// request is refused as unauthenticated and yet the owner's next, smaller nonce is turned away
+	{
+		isWrapper := map[*ssa.Function]bool{}
+		for _, w := range a.wrappers {
+			isWrapper[w] = true
+		}
+		var vb []string
+		nMade := 0
+		for _, fn := range p.Repo {
+			if p.IsTestFunc(fn) || isTestDoublePkg(fn) {
+				continue
+			}
+			top := fn
+			for top.Parent() != nil {
+				top = top.Parent()
+			}
+			an.AllInstrs(fn, func(in ssa.Instruction) {
+				mi, ok := in.(*ssa.MakeInterface)
+				if !ok || !an.IsErrorType(mi.Type()) {
+					return
+				}
+				n := namedOf(mi.X.Type())
+				if n == nil || n.Obj().Name() != "VerifyFailedError" {
+					return
+				}
+				nMade++
+				if !isWrapper[top] {
+					vb = append(vb, an.FuncName(fn)+" answers VerifyFailedError at "+p.Pos(mi.Pos())+" outside the verify wrappers: by then the wrapper has accepted the signature and stored the nonce")
+				}
+			})
+		}
+		r.Check(len(vb) == 0 && nMade > 0, "refusal-before-nonce", "VerifyFailedError", token.NoPos, "authentication refusals are issued by the verify wrappers only", "%s (constructions: %d)", strings.Join(dedup(vb), "; "), nMade)
+	}
 	for _, w := range a.wrappers {
 		name := an.FuncName(w)
 		r.Analysed(name)
